@@ -12,7 +12,7 @@ lazy_static::lazy_static! {
 
 pub fn e0() -> Vec<&'static str> {
     vec![
-        "a", "b", "@", "`1`", "`null`", "'a'", "[0]", "[-1]", "[1:]", "[::-1]", "[::0]", "[]", "[*]", "*",
+        "a", "b", "@", "`1`", "`null`", "'a'", "'1'", "[0]", "[-1]", "[1:]", "[::-1]", "[::0]", "[]", "[*]", "*", "type(@)",
     ]
 }
 
@@ -20,7 +20,7 @@ pub const UNARY: &[&str] = &[
     "X.a", "X.b", "X[0]", "X[-1]", "X[1:]", "X[::-1]", "X[*]", "X[]", "X.*", "!X", "(X)",
 ];
 pub const BINARY: &[&str] = &[
-    "X|Y", "X||Y", "X&&Y", "X==Y", "X!=Y", "X<Y", "[X,Y]", "{a:X,b:Y}", "X[?Y]",
+    "X|Y", "X||Y", "X&&Y", "X==Y", "X!=Y", "X<Y", "[X,Y]", "{a:X,b:Y}", "X[?Y]", "sort_by(X, &Y)", "map(&X, Y)",
 ];
 
 pub fn apply1(t: &str, x: &str) -> String {
@@ -40,7 +40,7 @@ pub fn apply2(t: &str, x: &str, y: &str) -> String {
 
 /// postfix chains: a base followed by up to `n` postfix operators -- reaches
 /// "filter . field filter" and similar shapes beyond the sentence length bound
-pub const POSTFIX: &[&str] = &[".a", ".b", "[0]", "[1:]", "[*]", "[]", ".*", "[?a]", "[?b > `0`]", ".[a, b]", " | a", " || b", " == a"];
+pub const POSTFIX: &[&str] = &[".a", ".b", "[0]", "[1:]", "[*]", "[]", ".*", "[?a]", "[?b > `0`]", ".[a, b]", " | a", " || b", " == a", ".type(@)", ".not_null(@, 'n')"];
 pub const BASES: &[&str] = &["a", "@", "[0]", "*", "!a", "(a)", "[a, b]"];
 
 pub fn chains(n: usize) -> Vec<String> {
@@ -170,7 +170,7 @@ pub fn run(tier: Tier) -> i32 {
     let mut rep = Report::new("C01", tier);
     crate::engine::start_watchdog("C01", std::time::Duration::from_secs(120));
     let alpha = t_core();
-    let l = tier.pick(7, 8);
+    let l = tier.pick(6, 7);
     let full = tier == Tier::Thorough;
     // (a) every sentence over the core alphabet
     let mut st = Stats::default();
